@@ -133,11 +133,14 @@ Interfaces == {"nodes", "ext", "e2i", "lab", "np1", "npm", "out", "outt", "inn",
 
 DumpSets(d) == [i \in Interfaces |-> SeqSet(d[i])]
 
-Diff(g, d) ==
-  LET e == Expect(g) o == DumpSets(d) IN
+(* o: function Interfaces -> set of tuples (an observation as sets) *)
+DiffO(g, o) ==
+  LET e == Expect(g) IN
      {i \o ":missing" : i \in {j \in Interfaces : e[j] \ o[j] # {}}}
   \cup {i \o ":extra" : i \in {j \in Interfaces : o[j] \ e[j] # {}}}
-  \cup (IF Len(d.errs) > 0 THEN {"read:error"} ELSE {})
+
+Diff(g, d) ==
+  DiffO(g, DumpSets(d)) \cup (IF Len(d.errs) > 0 THEN {"read:error"} ELSE {})
 
 (* The graph an observation describes (used to resynchronise a monitor).   *)
 FromDump(g, d) ==
